@@ -21,7 +21,7 @@ Count(q, x) == Cardinality({i \in DOMAIN q : q[i] = x})
 \* once: the function is a run-once function;  second: the observed call is the second call of the function
 \* object (with fail: the first call was given the missing input and succeeded, the observed one is not)
 \* how: "" the function is called directly;  "redef" it is called through its redefinition f.Redefine() (the redefined function
-\*      returns what the original returns - except that next to a non-nil final error it returns zero values);
+\*      returns what the original returns, the values next to a non-nil final error included);
 \*      "nilarg" the call is given a nil option, "generr" a converter generator that reports an error and a value for it to be
 \*      asked about: both fail before anything is resolved (length 0, a non-nil error), also for a function without parameters
 Hows == {"", "redef", "nilarg", "generr"}
@@ -63,8 +63,8 @@ C17 == rec.ev = "obs" =>
    LET e == Expected(rec.desc) IN
    /\ rec.panic = ""
    /\ rec.len = e.len
-   \* (through a redefinition the outputs next to a non-nil final error are zero values: not compared)
-   /\ (rec.desc.how # "redef" \/ e.errnil) => (rec.outs = e.outs /\ rec.outnil = e.outnil)
+   \* (also through a redefinition, and also next to a non-nil final error - repair of F32)
+   /\ rec.outs = e.outs /\ rec.outnil = e.outnil
    /\ rec.errnil = e.errnil
    /\ rec.errtok = e.errtok
    /\ (~e.resolved /\ rec.desc.how = "") => rec.unsat
